@@ -457,7 +457,8 @@ def splice_rule(ctx: Ctx, rep: Report, q: str, rid: str = "R19.4") -> None:  # n
     rep.rule(rid)
     from .normalise import normalised as _norm
 
-    f = _norm(ctx, ctx.func(q), "ifexp")  # `x = A if C else B` is two paths
+    # `x = A if C else B` is two paths; a loop shared by both containers (a helper with a `nested` switch) is read in place
+    f = _norm(ctx, ctx.func(q), "valuecalls,ifexp")
     cfg = ctx.cfg(f)
     loops = [n for n in cfg.live if n.kind == "for" and src(n.ast.iter) in ("self._items", "self.items")]
     rep.instance()
@@ -514,7 +515,9 @@ def splice_rule(ctx: Ctx, rep: Report, q: str, rid: str = "R19.4") -> None:  # n
 def r19_4b(ctx: Ctx, rep: Report) -> None:
     """Acl.ungroup_ports descends into groups and re-groups."""
     rep.rule("R19.4")
-    f = ctx.func("Acl.ungroup_ports")
+    from .normalise import normalised as _norm
+
+    f = _norm(ctx, ctx.func("Acl.ungroup_ports"), "valuecalls,ifexp")  # a shared loop with a `nested=True` switch is read in place
     cfg = ctx.cfg(f)
     rep.instance()
     descends = False
@@ -523,7 +526,9 @@ def r19_4b(ctx: Ctx, rep: Report) -> None:
             for x in ast.walk(n.ast):
                 if isinstance(x, ast.Call) and isinstance(x.func, ast.Attribute) and x.func.attr == "ungroup_ports" and src(x.func.value) != "self":
                     deps = cfg.control_deps(n)
-                    if any(c.kind == "cond" and "AceGroup" in src(c.ast) and lab == "T" for c, lab in deps):
+                    # no condition that is constantly false after the switch was put in (`False and isinstance(...)`)
+                    dead = any(c.kind == "cond" and isinstance(c.ast, ast.Constant) and bool(c.ast.value) != (lab == "T") for c, lab in cfg.transitive_control_deps(n))
+                    if any(c.kind == "cond" and "AceGroup" in src(c.ast) and lab == "T" for c, lab in deps) and not dead:
                         descends = True
     if descends:
         rep.ok("Acl.ungroup_ports: nested groups", "descends into each AceGroup before carrying it over", where=where(f))
